@@ -723,10 +723,14 @@ impl<K: CacheKey + 'static> AsyncCache<K> for DiskCache<K> {
 
         index.clear();
         drop(index); // Release lock early to reduce contention
+        #[cfg(feature = "verif-hooks")]
+        crate::verif_hooks::sched_point("disk.clear.after_unlock");
 
         self.entry_count.store(0, Ordering::Relaxed);
         self.disk_usage.store(0, Ordering::Relaxed);
         self.metrics.reset();
+        #[cfg(feature = "verif-hooks")]
+        crate::verif_hooks::sched_point("disk.clear.after_counters");
 
         // Also clean up any remaining files and subdirectories
         self.clear_directory_recursive(&self.config.cache_dir)?;
